@@ -8,7 +8,6 @@ From V.model Require Import Base RelLex RelParse RelAcc RelGrammar RelGrammarAll
 From V.model Require Import RelEdit RelEditSpec RelEditTree RelLiveAll.
 From V.proofs Require Import BaseP RelLexP RelEditP RelEditStP RelEditTreeP RelGrammarParseP RelGrammarAccP RelLexInvP RelGrammarAllAccP.
 From V.proofs Require Import RelLiveAllP RelLiveAllStepP RelLiveAllWfP.
-Set Default Timeout 60.
 
 (* ------------------------------------------------------------------ white space slots *)
 Lemma wtree_wtok_of t : is_ws_kind (fst t) = true -> wtree (wtok_of t) = tk t.
